@@ -1125,4 +1125,287 @@ theorem exec_sim (hrf : Agree rfM rfS) (op : Op) (tys : List Ty) (hR : R env m s
       exact ⟨⟨{ hg with stroke := rfl }, hR.dctm, hR.stack, hR.txt, hR.res, hR.args, hR.fuel⟩, by first | rfl | trivial⟩
 
 end
+/-! ### programs -/
+
+section
+variable (env : Env) (rfM : Form → Matrix → Res → List Glyph × Bool) (rfS : Form → GS → Res → Option (List Glyph))
+
+/-- One instruction of the domain (operands, then operator). -/
+theorem step_sim (hrf : Agree rfM rfS) (m : MState) (s s' : SState) (i : Instr) (gl : List Glyph) (hR : R env m s)
+    (h : step env rfS s i = some (s', gl)) :
+    R env (execToks env rfM m i.toks).1 s' ∧ (execToks env rfM m i.toks).2 = gl := by
+  rw [execToks_instr]
+  obtain ⟨tys, hsig, hall, hb, hlen, hcase⟩ := step_inv h
+  rcases hcase with ⟨hw, rfl, rfl⟩ | ⟨hw, happ⟩
+  · rw [illtyped_noop env rfM m s'.gs i.op tys i.args hsig hlen hb hw hR.args hR.g.ncs hR.g.scs hR.g.fillN hR.g.strokeN]
+    exact ⟨hR, rfl⟩
+  · exact exec_sim env rfM rfS m s s' i.args gl hrf i.op tys hR hsig hall hw happ
+
+theorem run_sim (hrf : Agree rfM rfS) (is : List Instr) :
+    ∀ (m : MState) (s s' : SState) (gl : List Glyph), R env m s → runInstrs env rfS s is = some (s', gl) →
+      R env (execToks env rfM m (is.flatMap Instr.toks)).1 s' ∧ (execToks env rfM m (is.flatMap Instr.toks)).2 = gl := by
+  induction is with
+  | nil =>
+    intro m s s' gl hR h
+    simp only [runInstrs, Option.some.injEq, Prod.mk.injEq] at h
+    obtain ⟨rfl, rfl⟩ := h
+    simp [execToks, hR]
+  | cons i rest ih =>
+    intro m s s' gl hR h
+    simp only [runInstrs] at h
+    split at h
+    · simp at h
+    · rename_i s1 g1 h1
+      split at h
+      · simp at h
+      · rename_i s2 g2 h2
+        simp only [Option.some.injEq, Prod.mk.injEq] at h
+        obtain ⟨rfl, rfl⟩ := h
+        obtain ⟨hR1, hg1⟩ := step_sim env rfM rfS hrf m s s1 i g1 hR h1
+        obtain ⟨hR2, hg2⟩ := ih _ s1 s2 g2 hR1 h2
+        simp only [List.flatMap_cons]
+        rw [execToks_append]
+        exact ⟨hR2, by rw [hg1, hg2]⟩
+
+theorem parseInstrs_sound (toks : List Tok) :
+    ∀ (acc : List Obj) (is : List Instr), parseInstrs toks acc = (is, []) →
+      acc.map Tok.opnd ++ toks = is.flatMap Instr.toks := by
+  induction toks with
+  | nil =>
+    intro acc is h
+    simp only [parseInstrs, Prod.mk.injEq] at h
+    obtain ⟨rfl, rfl⟩ := h
+    simp
+  | cons t rest ih =>
+    intro acc is h
+    cases t with
+    | opnd o =>
+      simp only [parseInstrs] at h
+      have := ih (acc ++ [o]) is h
+      simpa using this
+    | op o =>
+      simp only [parseInstrs] at h
+      rcases hp : parseInstrs rest [] with ⟨is', tr⟩
+      rw [hp] at h
+      simp only [Prod.mk.injEq] at h
+      obtain ⟨rfl, rfl⟩ := h
+      have := ih [] is' hp
+      simp only [List.map_nil, List.nil_append] at this
+      simp [List.flatMap_cons, Instr.toks, this]
+
+theorem allowed_textstate (b : Bool) (o : Op) (h : isTextState o = true) : allowed b o = true := by
+  cases b <;> simp [allowed, h]
+
+theorem allowed_any (b : Bool) (o : Op) (h : (isTextState o || isColour o) = true) : allowed b o = true := by
+  cases b <;> simp only [allowed, Bool.false_eq_true, if_false, if_true] <;>
+    rcases Bool.or_eq_true_iff.mp h with h | h <;> simp [h]
+
+theorem allowed_colour (b : Bool) (o : Op) (h : isColour o = true) : allowed b o = true := by
+  cases b <;> simp [allowed, h]
+
+/-- Closed form of a step that only rewrites the graphics state (or is outside the domain). -/
+def GsStep (i : Instr) (F : Res → GS → Option GS) : Prop :=
+  ∀ s : SState, step env rfS s i = (F s.res s.gs).map (fun g => ({ s with gs := g }, []))
+
+theorem gsStep_Tc (v : Rat) : GsStep env rfS ⟨.Tc, [.num v]⟩ (fun _ g => some { g with Tc := v }) := by
+  intro s; have ha := allowed_any s.txt.isSome Op.Tc rfl
+  simp [step, sig, ha, isTextState, wellTyped, Ty.ok, Obj.isBool, apply]
+theorem gsStep_Tw (v : Rat) : GsStep env rfS ⟨.Tw, [.num v]⟩ (fun _ g => some { g with Tw := v }) := by
+  intro s; have ha := allowed_any s.txt.isSome Op.Tw rfl
+  simp [step, sig, ha, isTextState, wellTyped, Ty.ok, Obj.isBool, apply]
+theorem gsStep_Tz (v : Rat) : GsStep env rfS ⟨.Tz, [.num v]⟩ (fun _ g => some { g with Th := v }) := by
+  intro s; have ha := allowed_any s.txt.isSome Op.Tz rfl
+  simp [step, sig, ha, isTextState, wellTyped, Ty.ok, Obj.isBool, apply]
+theorem gsStep_TL (v : Rat) : GsStep env rfS ⟨.TL, [.num v]⟩ (fun _ g => some { g with Tl := v }) := by
+  intro s; have ha := allowed_any s.txt.isSome Op.TL rfl
+  simp [step, sig, ha, isTextState, wellTyped, Ty.ok, Obj.isBool, apply]
+theorem gsStep_Ts (v : Rat) : GsStep env rfS ⟨.Ts, [.num v]⟩ (fun _ g => some { g with Trise := v }) := by
+  intro s; have ha := allowed_any s.txt.isSome Op.Ts rfl
+  simp [step, sig, ha, isTextState, wellTyped, Ty.ok, Obj.isBool, apply]
+theorem gsStep_Tr (v : Rat) :
+    GsStep env rfS ⟨.Tr, [.num v]⟩ (fun _ g => if v.den = 1 then some { g with Tmode := v.num } else none) := by
+  intro s
+  have ha := allowed_textstate s.txt.isSome .Tr rfl
+  by_cases h : v.den = 1 <;>
+    simp [step, sig, ha, wellTyped, Ty.ok, Obj.isBool, apply, h]
+theorem gsStep_Tf (n : String) (v : Rat) :
+    GsStep env rfS ⟨.Tf, [.name n, .num v]⟩ (fun res g =>
+      match lookup n res.fonts with
+      | none => none
+      | some i => if i < env.fonts.length then some { g with Tf := some i, Tfs := v } else none) := by
+  intro s
+  have ha := allowed_textstate s.txt.isSome .Tf rfl
+  simp only [step, sig, ha, wellTyped, Ty.ok, Obj.isBool, apply, List.any_cons, List.any_nil,
+    Bool.or_false, Bool.not_true, Bool.false_eq_true, if_false, List.length_cons, List.length_nil, Nat.lt_irrefl,
+    Bool.and_true, Bool.and_self, Bool.or_self]
+  cases lookup n s.res.fonts with
+  | none => simp
+  | some i => by_cases h : i < env.fonts.length <;> simp [h]
+
+/-- The first prologue instruction: `g`, `rg` or `k` with numbers. -/
+theorem gsStep_fill (c : Instr)
+    (h : (match c with
+      | ⟨.g, [.num _]⟩ | ⟨.rg, [.num _, .num _, .num _]⟩ | ⟨.k, [.num _, .num _, .num _, .num _]⟩ => true
+      | _ => false) = true) :
+    ∃ (ok : Bool) (n : Nat) (col : Color),
+      GsStep env rfS c (fun _ g => if ok then some { g with fillN := n, fill := some col } else none) := by
+  split at h
+  · rename_i v
+    refine ⟨unitRange [v], 1, [v], ?_⟩
+    intro s
+    have ha := allowed_any s.txt.isSome Op.g rfl
+    by_cases hu : unitRange [v] = true <;>
+      simp [step, sig, ha, wellTyped, Ty.ok, Obj.isBool, apply, hu]
+  · rename_i a b c
+    refine ⟨unitRange [a, b, c], 3, [a, b, c], ?_⟩
+    intro s
+    have ha := allowed_any s.txt.isSome Op.rg rfl
+    by_cases hu : unitRange [a, b, c] = true <;>
+      simp [step, sig, ha, wellTyped, Ty.ok, Obj.isBool, apply, hu]
+  · rename_i a b c d
+    refine ⟨unitRange [a, b, c, d], 4, [a, b, c, d], ?_⟩
+    intro s
+    have ha := allowed_any s.txt.isSome Op.k rfl
+    by_cases hu : unitRange [a, b, c, d] = true <;>
+      simp [step, sig, ha, wellTyped, Ty.ok, Obj.isBool, apply, hu]
+  · simp at h
+
+theorem gsStep_stroke (c : Instr)
+    (h : (match c with
+      | ⟨.G, [.num _]⟩ | ⟨.RG, [.num _, .num _, .num _]⟩ | ⟨.K, [.num _, .num _, .num _, .num _]⟩ => true
+      | _ => false) = true) :
+    ∃ (ok : Bool) (n : Nat) (col : Color),
+      GsStep env rfS c (fun _ g => if ok then some { g with strokeN := n, stroke := some col } else none) := by
+  split at h
+  · rename_i v
+    refine ⟨unitRange [v], 1, [v], ?_⟩
+    intro s
+    have ha := allowed_any s.txt.isSome Op.G rfl
+    by_cases hu : unitRange [v] = true <;>
+      simp [step, sig, ha, wellTyped, Ty.ok, Obj.isBool, apply, hu]
+  · rename_i a b c
+    refine ⟨unitRange [a, b, c], 3, [a, b, c], ?_⟩
+    intro s
+    have ha := allowed_any s.txt.isSome Op.RG rfl
+    by_cases hu : unitRange [a, b, c] = true <;>
+      simp [step, sig, ha, wellTyped, Ty.ok, Obj.isBool, apply, hu]
+  · rename_i a b c d
+    refine ⟨unitRange [a, b, c, d], 4, [a, b, c, d], ?_⟩
+    intro s
+    have ha := allowed_any s.txt.isSome Op.K rfl
+    by_cases hu : unitRange [a, b, c, d] = true <;>
+      simp [step, sig, ha, wellTyped, Ty.ok, Obj.isBool, apply, hu]
+  · simp at h
+
+theorem runInstrs_gsStep (i : Instr) (F : Res → GS → Option GS) (h : GsStep env rfS i F) (s : SState)
+    (rest : List Instr) :
+    runInstrs env rfS s (i :: rest) =
+      match F s.res s.gs with
+      | none => none
+      | some g => runInstrs env rfS { s with gs := g } rest := by
+  simp only [runInstrs, h s]
+  cases F s.res s.gs with
+  | none => rfl
+  | some g =>
+    simp only [Option.map_some]
+    cases runInstrs env rfS { s with gs := g } rest with
+    | none => rfl
+    | some r => obtain ⟨s2, g2⟩ := r; simp
+
+/-- A form that starts with the prologue does not depend on the text/colour state it inherits:
+after fill colour, stroke colour, `Tc Tw Tz TL Tf Tr Ts` every parameter except the CTM has been set. -/
+theorem prologue_indep (res : Res) (is : List Instr) (hp : hasPrologue is = true) (g1 g2 : GS) (hc : g1.ctm = g2.ctm) :
+    runInstrs env rfS ⟨g1, [], none, res⟩ is = runInstrs env rfS ⟨g2, [], none, res⟩ is := by
+  unfold hasPrologue at hp
+  split at hp
+  · rename_i c cS x1 x2 x3 x4 n5 x5 x6 x7 rest
+    simp only [Bool.and_eq_true] at hp
+    obtain ⟨ok1, n1, col1, h1⟩ := gsStep_fill env rfS c hp.1
+    obtain ⟨ok2, n2, col2, h2⟩ := gsStep_stroke env rfS cS hp.2
+    rw [runInstrs_gsStep env rfS _ _ h1, runInstrs_gsStep env rfS _ _ h1]
+    cases ok1 with
+    | false => rfl
+    | true =>
+      simp only [if_true]
+      rw [runInstrs_gsStep env rfS _ _ h2, runInstrs_gsStep env rfS _ _ h2]
+      cases ok2 with
+      | false => rfl
+      | true =>
+        simp only [if_true]
+        rw [runInstrs_gsStep env rfS _ _ (gsStep_Tc env rfS x1), runInstrs_gsStep env rfS _ _ (gsStep_Tc env rfS x1)]
+        simp only
+        rw [runInstrs_gsStep env rfS _ _ (gsStep_Tw env rfS x2), runInstrs_gsStep env rfS _ _ (gsStep_Tw env rfS x2)]
+        simp only
+        rw [runInstrs_gsStep env rfS _ _ (gsStep_Tz env rfS x3), runInstrs_gsStep env rfS _ _ (gsStep_Tz env rfS x3)]
+        simp only
+        rw [runInstrs_gsStep env rfS _ _ (gsStep_TL env rfS x4), runInstrs_gsStep env rfS _ _ (gsStep_TL env rfS x4)]
+        simp only
+        rw [runInstrs_gsStep env rfS _ _ (gsStep_Tf env rfS n5 x5), runInstrs_gsStep env rfS _ _ (gsStep_Tf env rfS n5 x5)]
+        simp only
+        cases lookup n5 res.fonts with
+        | none => rfl
+        | some i =>
+          simp only
+          by_cases hi : i < env.fonts.length
+          · simp only [hi, if_true]
+            rw [runInstrs_gsStep env rfS _ _ (gsStep_Tr env rfS x6), runInstrs_gsStep env rfS _ _ (gsStep_Tr env rfS x6)]
+            simp only
+            by_cases hd : x6.den = 1
+            · simp only [hd, if_true]
+              rw [runInstrs_gsStep env rfS _ _ (gsStep_Ts env rfS x7), runInstrs_gsStep env rfS _ _ (gsStep_Ts env rfS x7)]
+              simp only [hc]
+            · simp only [hd, if_false]
+          · simp only [hi, if_false]
+  · simp at hp
+
+theorem R_init (ctm : Matrix) (res : Res) : R env (MState.init ctm res) ⟨GS.init ctm, [], none, res⟩ := by
+  refine ⟨?_, rfl, trivial, trivial, rfl, rfl, rfl⟩
+  exact { ctm := rfl, fill := rfl, stroke := rfl, ncs := (by decide : csDefault.2 = 1), scs := (by decide : csDefault.2 = 1), fillN := Or.inl rfl,
+          strokeN := Or.inl rfl, tc := rfl, tw := rfl, th := rfl, tl := by simp [MState.init, TextState.init, GS.init],
+          tfs := rfl, trise := rfl, font := trivial }
+
+/-- A content stream of the domain run from related initial states. -/
+theorem stream_sim (hrf : Agree rfM rfS) (ctm : Matrix) (res : Res) (is : List Instr) (gl : List Glyph)
+    (h : runStream env rfS (GS.init ctm) res is = some gl) :
+    (execToks env rfM (MState.init ctm res) (is.flatMap Instr.toks)).2 = gl ∧
+      (execToks env rfM (MState.init ctm res) (is.flatMap Instr.toks)).1.fuelOk = true := by
+  unfold runStream at h
+  split at h
+  · simp at h
+  · rename_i s' gl' hrun
+    split at h
+    · simp only [Option.some.injEq] at h
+      subst h
+      obtain ⟨hR, hg⟩ := run_sim env rfM rfS hrf is _ _ s' gl' (R_init env ctm res) hrun
+      exact ⟨hg, hR.fuel⟩
+    · simp at h
+
+end
+
+/-- The interpreter's form runner and the text model's agree at every nesting budget. -/
+theorem runForm_agree (env : Env) : ∀ fuel : Nat, Agree (Interp.runForm env fuel) (TextModel.runForm env fuel)
+  | 0 => by
+    intro fm gs res gl h
+    simp [TextModel.runForm] at h
+  | fuel + 1 => by
+    intro fm gs res gl h
+    simp only [TextModel.runForm] at h
+    split at h
+    · rename_i is hparse
+      split at h
+      · rename_i hpro
+        have hsound := parseInstrs_sound fm.body [] is hparse
+        simp only [List.map_nil, List.nil_append] at hsound
+        have hind : runStream env (TextModel.runForm env fuel) gs res is
+            = runStream env (TextModel.runForm env fuel) (GS.init gs.ctm) res is := by
+          unfold runStream
+          rw [prologue_indep env (TextModel.runForm env fuel) res is hpro gs (GS.init gs.ctm) rfl]
+        rw [hind] at h
+        obtain ⟨hg, hf⟩ := stream_sim env (Interp.runForm env fuel) (TextModel.runForm env fuel)
+          (runForm_agree env fuel) gs.ctm res is gl h
+        simp only [Interp.runForm, hsound]
+        rw [← hg, ← hf]
+      · simp at h
+    · simp at h
+
 end PdfVerif.Interp
